@@ -401,12 +401,20 @@ def _enclosing_decl(path, line_no):
 
 
 def load_known(prop):
-    if not os.path.exists(KNOWN_FINDINGS):
-        return []
-    with open(KNOWN_FINDINGS) as f:
-        data = json.load(f)
-    return [k for k in data.get('findings', []) if k.get('property') == prop
-            and k.get('status', 'open') == 'open']
+    """Open findings of `prop` from known_findings.json and known_findings.d/*.json (read only)."""
+    paths = [KNOWN_FINDINGS]
+    ddir = os.path.join(ROOT, 'known_findings.d')
+    if os.path.isdir(ddir):
+        paths += sorted(os.path.join(ddir, n) for n in os.listdir(ddir) if n.endswith('.json'))
+    out = []
+    for p in paths:
+        if not os.path.exists(p):
+            continue
+        with open(p) as f:
+            data = json.load(f)
+        out += [k for k in data.get('findings', []) if k.get('property') == prop
+                and k.get('status', 'open') == 'open']
+    return out
 
 
 def matches(sig, finding):
